@@ -54,6 +54,69 @@ def make_file(path, rng, kind):
                 len=h.array_bytes, is3d=kind != '2d', structured=(kind == 'regular'), n=n)
 
 
+def io_problems(fd, op, log):
+    """the header clause of C07 on the range reads one call issued, judged on the real code alone: a header of a regular
+    file costs 4 bytes per stored array; nothing outside the footer arrays is touched.  (Whole-array loads may fetch the
+    array shared by duplicate fields once per field: the property's no-byte-twice clause is about sample reads.)"""
+    probs = []
+    n_arrays = len(fd['stored'])
+    lo, hi = fd['footer'], fd['footer'] + n_arrays * fd['stride']
+    for (o, l) in log:
+        if not (lo <= o and o + l <= hi):
+            probs.append(f'{op}: header look-up read [{o}, {o + l}) outside the footer arrays [{lo}, {hi})')
+    if op[0] == 'hdr' and fd['structured']:
+        if any(l != 4 for (_, l) in log) or len(log) > n_arrays:
+            probs.append(f'{op}: a header of a regular file must cost 4 bytes per stored array ({n_arrays} arrays); '
+                         f'read {sum(l for _, l in log)} bytes in {len(log)} reads')
+    return probs[:2]
+
+
+def expected(fd, op):
+    """what the file defines as the result of a header / tracefield read, from the way the file was built (independent of
+    the Lean model and of the reader): ('ok', values) | ('err', 'index' | 'other')"""
+    grid, holes, stored = fd['grid'], set(fd['holes']), fd['stored']
+    src = {c: c for c in stored}
+    src.update(fd['dups'])
+    if op[0] in ('hdr', 'hdrall'):
+        t = op[1]
+        if fd['is3d'] and not 0 <= t < grid:
+            return ('err', 'index')
+        if fd['is3d'] and not fd['structured']:
+            pos = [p for p in range(grid) if p not in holes]
+            if t >= len(pos):
+                return ('err', 'index')
+            slot = pos[t]
+        else:
+            if t >= grid:
+                return ('err', 'index')
+            slot = t
+        consts = {115: 8, 117: 4000}
+        return ('ok', [(stored.index(src[c]) + 1) * 1000000 + slot + 1 if c in src else consts.get(c, 0) for c in spec.FIELDS])
+    if op[0] == 'tfv':
+        if op[1] not in src:
+            return ('err', 'other')
+        k = stored.index(src[op[1]])
+        return ('ok', [0 if p in holes else (k + 1) * 1000000 + p + 1 for p in range(grid)])
+    return None
+
+
+def enumerate_short_histories(ctx, model, path, fd, desc, depth):
+    """every history  a [b] target  over a small alphabet of header operations (both padding modes, one-field loads,
+    tracefield reads, clear) on one file: the directed part of the search for a failing input"""
+    T = fd['grid'] - len(fd['holes'])
+    f0 = fd['stored'][0]
+    alpha = [None, ('rvh', False), ('rvh', True), ('rvh1', False, f0), ('rvh1', True, fd['stored'][-1]), ('tfv', f0),
+             ('hdr', 0), ('hdrall', max(T - 1, 0)), ('clear',)]
+    targets = [('hdr', 0), ('hdr', T - 1), ('hdr', T), ('hdr', fd['grid']), ('hdrall', T - 1), ('tfv', fd['stored'][-1])]
+    n = 0
+    for a in alpha:
+        for b in (alpha if depth >= 3 else [None]):
+            ops = [o for o in (a, b) if o is not None] + targets
+            n += 1
+            run_history(ctx, model, path, fd, ops, dict(desc, directed=True))
+    ctx.stats['directed_header_histories'] += n
+
+
 def run_history(ctx, model, path, fd, ops, desc):
     """ops: list of ('hdr', t) | ('hdrall', t) | ('tfv', code) | ('rvh', pad) | ('rvh1', pad, code) | ('clear',)"""
     head = (f"hhist {fd['grid']} {1 if fd['is3d'] else 0} {1 if fd['structured'] else 0} {fd['footer']} {fd['stride']} {fd['len']} "
@@ -90,14 +153,22 @@ def run_history(ctx, model, path, fd, ops, desc):
                         r.clear_variant_headers()
                         impl.append('err other')
                         continue
+                    exp = expected(fd, op)
+                    if exp is not None and ctx.pid in ('C08', 'C14', 'C15') and exp != ('ok', vals):
+                        ctx.fail(f'{op} after {lines[:-1][-5:]} returned values that are not those the file stores for it '
+                                 f'(expected {exp[0]} {str(exp[1])[:60]})', dict(desc, ops=lines[-8:]))
+                    if ctx.pid == 'C07':
+                        for prob in io_problems(fd, op, [(o, l) for (o, l, _) in hdl.log]):
+                            ctx.fail(prob, dict(desc, ops=lines[-6:]))
                     fs = ','.join(f'{o}:{l}' for (o, l, _) in hdl.log)
                     impl.append(f'ok {len(vals)} {digest_int(vals)} {fs}'.rstrip() if fs else f'ok {len(vals)} {digest_int(vals)} ')
-                except IndexError:
-                    impl.append('err index')
-                except KeyError:
-                    impl.append('err other')
-                except AssertionError:
-                    impl.append('err assertion')
+                except (IndexError, KeyError, AssertionError) as e:
+                    cls = {IndexError: 'index', KeyError: 'other', AssertionError: 'assertion'}[type(e)]
+                    impl.append('err ' + cls)
+                    exp = expected(fd, op)
+                    if exp is not None and ctx.pid in ('C08', 'C14', 'C15') and exp != ('err', cls):
+                        ctx.fail(f'{op} after {lines[:-1][-5:]} raised {type(e).__name__}; the file defines {exp[0]} '
+                                 f'{str(exp[1])[:60]}', dict(desc, ops=lines[-8:]))
         finally:
             r.close()
     ctx.stats['corr_requests'] += 1
